@@ -46,6 +46,7 @@ def check(ctx):
     one, two = configs(ctx)
     r1 = pmap(dwtlib.w_inv1d, ctx.repo, one, ctx.jobs)
     r2 = pmap(dwtlib.w_inv2d, ctx.repo, two, ctx.jobs)
+    r2 = r2 + pmap(dwtlib.w_dim_alias, ctx.repo, [('sfb1d', m, L, H, W, d) for m in dwtlib.MODES5 for (L, H, W) in ((4, 9, 12), (6, 5, 7)) for d in (-1, -2)], ctx.jobs)
     findings, samples = [], []
     cmp_ = diff = 0
     for r in r1 + r2:
